@@ -36,7 +36,25 @@ func genCase(t *rapid.T) Case {
 	o := gen.YOpts{Depth: rapid.IntRange(1, 3).Draw(t, "depth"), Comments: rapid.IntRange(0, 3).Draw(t, "com") > 0, Anchors: rapid.Bool().Draw(t, "anch"),
 		Tags: rapid.Bool().Draw(t, "tags"), Flow: rapid.Bool().Draw(t, "flow"), Blocks: rapid.Bool().Draw(t, "blocks")}
 	docs := gen.StyledStream(t, o, 3)
-	return Case{Docs: docs, Text: gen.Text(docs)}
+	c := Case{Docs: docs, Text: gen.Text(docs)}
+	// shapes of the leading comment block of an implicit first document: a blank line after the block (two blocks
+	// when the first key has a comment of its own), a byte order mark, an indented first comment, a blank first line
+	if d := docs[0]; d.LeadComment != "" && !d.Sep && strings.HasPrefix(c.Text, "# "+d.LeadComment+"\n") {
+		rest := c.Text[len("# "+d.LeadComment+"\n"):]
+		switch rapid.IntRange(0, 7).Draw(t, "leadshape") {
+		case 0:
+			c.Text = "# " + d.LeadComment + "\n\n" + rest
+		case 1:
+			c.Text = "\xef\xbb\xbf# " + d.LeadComment + "\n\n" + rest
+		case 2:
+			c.Text = "    # " + d.LeadComment + "\n\n" + rest
+		case 3:
+			c.Text = "   \n# " + d.LeadComment + "\n\n" + rest
+		case 4:
+			c.Text = "\xef\xbb\xbf" + c.Text
+		}
+	}
+	return c
 }
 
 type nodeInfo struct {
@@ -257,7 +275,7 @@ func check(c Case) hx.Verdict {
 	o2 := hx.Run(".", out, hx.Opts{Unwrap: &unwrap})
 	if !o2.OK() || o2.Out != out {
 		sig := ""
-		if o2.OK() && strings.NewReplacer(",}", "}", ",]", "]").Replace(o2.Out) == out {
+		if norm := strings.NewReplacer(",}", "}", ",]", "]"); o2.OK() && norm.Replace(o2.Out) == norm.Replace(out) {
 			// a flow collection closed right before a comment the emitter holds for it gets a `,` before its bracket
 			sig = "deviant:flow-trailing-comma"
 		}
